@@ -443,6 +443,14 @@ class GrammarGen:
             if self.chance(self.o["sup"]):
                 t["sup"] = True
             return t
+        if names_below and assign and self.chance(self.o.get("tworole", 0.05)):
+            # the same rule tried at one position in two roles: suppressed in the first alternative, as the value
+            # of an assignment in the second
+            x = self.pick(names_below)
+            l1 = self.pick(self.o["lits"])
+            l2 = self.pick([l for l in self.o["lits"] if l != l1] or ["!"])
+            return Alt([Seq([Ref(x, sup=True), Str(l1)]),
+                        Seq([Asg(self.pick(attrs), "=", Ref(x)), Str(l2)])])
         if r < 0.55:
             n = self.rng.randrange(2, 4)
             return Seq([self.expr(d - 1, names_below, assign, attrs) for _ in range(n)])
